@@ -107,6 +107,24 @@ func c41(c *Ctx) {
 				c.MustPass("name-walk-stops-at-first-hit", pathQuery{Fn: f, Starts: []ssa.Instruction{upd}, Barrier: func(in ssa.Instruction) bool { return in == outerAdv }, Target: func(in ssa.Instruction) bool { return in == ssa.Instruction(get) }}, upd)
 			}
 		}
+		// the header walk is skipped only for empty metadata
+		var walkStart ssa.Instruction
+		for _, b := range f.Blocks {
+			for _, in := range b.Instrs {
+				if ia, ok := in.(*ssa.IndexAddr); ok && FieldLoad(c.field(rlsk, "builder", "headerKeys"))(ia.X) && walkStart == nil {
+					walkStart = in
+				}
+			}
+		}
+		if c.Expect(walkStart != nil, nil, f, "header-walk", "walk over the header key builders not found") {
+			c.MustPass("header-walk-skipped-only-for-empty-metadata", pathQuery{Fn: f, AtEntry: true, Barrier: func(in ssa.Instruction) bool {
+				bo, ok := in.(*ssa.BinOp) // the walk's loop test
+				return ok && bo.Op == token.LSS && isRangeIndex(bo.X) && LenOf(FieldLoad(c.field(rlsk, "builder", "headerKeys")))(bo.Y)
+			}, Target: isReturn, EdgeBlock: func(from, to *ssa.BasicBlock) bool {
+				_, ok := hasFact(edgeFacts(from, to), CmpInt(LenOf(ParamV("md")), token.EQL, 0))
+				return ok
+			}}, nil)
+		}
 		rk := c.fn(rlsk, "BuilderMap.RLSKey")
 		kv := CallRes(Callee(rlsk, "builder.buildHeaderKeys"), 0)
 		n := 0
@@ -181,6 +199,32 @@ func c41(c *Ctx) {
 			}
 		}
 		c.Expect(nOps == 2, nil, f, "two-variable-operands", "expected the key and the value as the only variable components")
+		// pairs are separated: a constant "," is written before every pair but the first
+		nSep := 0
+		for _, ci := range callsIn(f, CalleeX("fmt", "Fprint")) {
+			ops := variadicElems(ci.Common().Args[1])
+			if len(ops) == 1 {
+				if mi, ok := ops[0].(*ssa.MakeInterface); ok && ConstStr(",")(mi.X) {
+					nSep++
+					c.MustFact(ci, "separator-between-pairs", CmpInt(isRangeIndex, token.NEQ, 0))
+					c.MustPass("separator-before-every-pair-but-the-first", pathQuery{Fn: f, StartBlocks: []*ssa.BasicBlock{func() *ssa.BasicBlock {
+						for _, b := range f.Blocks {
+							for _, in := range b.Instrs {
+								if bo, ok := in.(*ssa.BinOp); ok && (bo.Op == token.NEQ || bo.Op == token.EQL) && isRangeIndex(bo.X) && ConstInt(0)(bo.Y) {
+									return b
+								}
+							}
+						}
+						return f.Blocks[0]
+					}()}, Barrier: func(in ssa.Instruction) bool { return in == ssa.Instruction(ci) }, Target: isCallTo(CalleeX("fmt", "Fprintf")),
+						EdgeBlock: func(from, to *ssa.BasicBlock) bool {
+							_, ok := hasFact(edgeFacts(from, to), CmpInt(isRangeIndex, token.EQL, 0))
+							return ok
+						}}, ci)
+				}
+			}
+		}
+		c.Expect(nSep == 1, nil, f, "pair-separator-written", "no constant separator is written between key=value pairs")
 		c.Expect(len(callsIn(f, CalleeX("sort", "Strings"))) == 1, nil, f, "keys-sorted", "keys are not written in sorted order (the string would depend on map iteration order)")
 	})
 	c.Ob("cache-size", "R12", "dataCache.currentSize changes only in addEntry (+entry.size with entries[key]=entry and lru add), deleteAndCleanup (-entry.size with delete and lru remove), updateEntrySize (-old then +new); insert only after a miss for the same key; delete only with the entry stored under the key", 14, func() {
@@ -296,7 +340,25 @@ func c41(c *Ctx) {
 		for _, r := range callsIn(ae, Callee(rlsp, dc+".resize")) {
 			c.ArgIs(r, 1, "add-evicts-down-to-max", FieldLoad(c.field(rlsp, dc, "maxSize")))
 		}
-		c.Expect(len(callsIn(ae, Callee(rlsp, dc+".resize"))) == 1, nil, ae, "add-triggers-eviction", "adding an entry never evicts")
+		if rsz := callsIn(ae, Callee(rlsp, dc+".resize")); c.Expect(len(rsz) == 1, nil, ae, "add-triggers-eviction", "adding an entry never evicts") {
+			fCur := c.field(rlsp, dc, "currentSize")
+			fMax := c.field(rlsp, dc, "maxSize")
+			var ins ssa.Instruction
+			for _, b := range ae.Blocks {
+				for _, in := range b.Instrs {
+					if mu, ok := in.(*ssa.MapUpdate); ok && FieldLoad(c.field(rlsp, dc, "entries"))(mu.Map) {
+						ins = mu
+					}
+				}
+			}
+			if ins != nil {
+				c.MustPass("over-limit-after-add-always-evicts", pathQuery{Fn: ae, Starts: []ssa.Instruction{ins}, Barrier: func(in ssa.Instruction) bool { return in == ssa.Instruction(rsz[0]) }, Target: isReturn,
+					EdgeBlock: func(from, to *ssa.BasicBlock) bool {
+						_, ok := hasFact(edgeFacts(from, to), Cmp(FieldLoad(fCur), token.LEQ, FieldLoad(fMax)))
+						return ok
+					}}, ins)
+			}
+		}
 	})
 	c.Ob("lookback", "R12", "lookback: total changes only with the bucket it mirrors (+v with buf[pos%bins]+=v; -buf[i] with buf[i]=0); samples at least a window behind the head are dropped; nothing changes when the clock does not advance; New() uses 30 s", 8, func() {
 		lb := "lookback"
